@@ -19,7 +19,8 @@
     requests naming somebody else change nothing;
   * `notEnded` / `presence`: a logout step ends the subject's session exactly when the
     last involved identity provider has answered or the deadline has passed;
-  * `pendingRemoved` / `pendingAdded`: a pending request disappears only by being answered; new ones
+  * `pendingRemoved` / `pendingAdded` / `answeredStillPending`: a pending request disappears only by
+    being answered, and once answered it is not pending any more (a duplicate answers nothing); new ones
     appear only while a logout operation is being processed, for providers still involved in it;
   * `request`: every LogoutRequest sent names the subject of the operation, goes to
     a provider still involved (one that has not answered yet), and carries the session index of a live
@@ -62,7 +63,7 @@ inductive Fail where
   | leak | expired | loggedIn
   | presence | sources
   | notEnded
-  | pendingRemoved | pendingAdded
+  | pendingRemoved | pendingAdded | answeredStillPending
   | request | status
   | afterSoap (f : Fail)   -- the clause was violated while processing a logout operation in which an
                            -- answer received over SOAP has been counted
@@ -73,6 +74,7 @@ def Fail.name : Fail → String
   | .presence => "session-changed" | .sources => "sources-changed"
   | .notEnded => "session-not-ended"
   | .pendingRemoved => "pending-removed-without-answer" | .pendingAdded => "request-not-allowed-pending"
+  | .answeredStillPending => "answered-request-still-pending"
   | .request => "request-not-allowed-or-not-naming-subject" | .status => "status"
   | .afterSoap f => f.name ++ "-after-soap-answer"
 
@@ -218,6 +220,12 @@ def pendingAddedOk (g : Ghost) (p : Plan) (before after : Obs) : Bool :=
   after.pending.all (fun rid => decide (rid ∈ before.pending) ||
     (decide (rid.step = g.stepNo) && p.opId.isSome && decide (rid.idp ∈ p.allowed)))
 
+/-- The request the step answered is not pending any more. -/
+def consumedGoneOk (p : Plan) (after : Obs) : Bool :=
+  match p.consumed with
+  | some rid => !decide (rid ∈ after.pending)
+  | none => true
+
 def requestOk (cfg : Cfg) (g : Ghost) (p : Plan) (out : Out) : Bool :=
   (emitted out).all (fun r =>
     decide (p.soi = some r.subj) && decide (r.id.step = g.stepNo) && decide (r.id.idp ∈ p.allowed) &&
@@ -263,6 +271,7 @@ def specStep (cs : Bool) (cfg : Cfg) (g : Ghost) (before : Obs) (e : Ev) : List 
     flag (sourcesOk p e.op before e.obs) .sources ++
     flag (pendingRemovedOk p before e.obs) .pendingRemoved ++
     flag (pendingAddedOk g p before e.obs) (mark .pendingAdded) ++
+    flag (consumedGoneOk p e.obs) .answeredStillPending ++
     flag (requestOk cfg g p e.out) (mark .request) ++
     flag (statusOk e.op e.out e.obs) .status ++
     flag (loggedInOk g' e.obs) .loggedIn
